@@ -58,6 +58,7 @@ class C07(Check):
         batch = [{'rule': 'wigm-prf-batch'}, {'rule': 'cfer-batch'}, {'rule': 'mpls'}, {'rule': 'meek'}, {'rule': 'warren', 'arithmetic': 'fixed', 'precision': 4}]
         yield from fam(4, spaces.W(4, 2, 3, (1, 2)), (1, 2, 3), 'idrev' if q else 'all', (configs.DEFAULTS + P[4:]) if q else D)
         yield from fam(5, spaces.BPS(5), (3, 4), 'id', batch[:2])
+        yield from fam(6, spaces.BPS(6, (0, 1, 5), 1, (1,)), (3, 4), 'id', batch[:4])
         yield from fam(4, spaces.BP(4, 3, 1, (3, 4, 5, 6)), (1, 2, 3), 'idrev', batch)
         yield from fam(4, spaces.BU(4), (1, 2, 3), 'idrev', batch)
         yield from fam(5, spaces.W(5, 2, 3, (1, 2)), (1, 2), 'idrev', [{'rule': 'scotland'}, {'rule': 'wigm-prf-batch'}])
